@@ -5,6 +5,9 @@ ROOT = os.path.dirname(os.path.abspath(__file__))
 
 MC = "model_checking"
 CHECKS = {
+ "C02": dict(design="§6 C02", technique="exhaustive enumeration of all byte strings up to a length (plus class-alphabet strings, all conditional skeletons and every push-length boundary) as scripts, each parsed by the real code and compared with an independent tokenizer; abort-prone cases run in isolated child processes",
+   text="Exhaustive within stated bounds: every byte string of length 0..3 (thorough 0..4) is given to Script::from_bytes; plus every 5-byte (6-byte) string over a 20-symbol class alphabet, every string of up to 8 (9) symbols over {IF,NOTIF,ELSE,ENDIF,NOP,push}, every push form at each length boundary with complete/short/absent payload and cut length fields, nesting depths 10/100/1000, and the push-prefix helper at every boundary of 75/76, 255/256, 65535/65536, 2^32-1. Accepted scripts must re-serialise to the input and flatten to the reference token list; truncated pushes and unclosed IF/NOTIF must be rejected; well-formed strings over accepted opcodes must be accepted. Strings whose PUSHDATA4 declares far more than remains run in child processes under a counting allocator, so an allocation bomb or abort becomes a verdict, not a crash.",
+   note="trusted base: refs::script tokenizer; the accepted opcode set and block openers are learned from the implementation (the property does not fix them); scripts longer than the bounds are covered only by listed boundary cases"),
  "C13": dict(design="§6 C13", technique="bounded-exhaustive enumeration of input shapes (full cartesian products of length/pattern alphabets, all chunkings) against an independent reference model, every model result compared with the real code",
    text="Exhaustive within stated bounds: every message length 0..300 (thorough 0..1100) x 4 byte patterns for the six digests, the full key-length x message-length grid for the six HMAC variants, the PBKDF2 grid, and all 2^(n-1) chunkings of inputs up to 12 (14) bytes through the three streaming adapters in plain/reversed mode with finalize and finalize_reset+reuse. Each case runs the real library function and is compared byte-for-byte with a from-the-standard reference. This is the right level because the library's own contribution (argument order, composition, adapter state handling, reverse flag) is finite-shape logic that the boundary alphabets separate; it says nothing about 256-bit-specific values outside the alphabets.",
    note="trusted base: refs::hashes (written from FIPS 180-4/RFC 2104/RFC 8018, KAT-checked, cross-checked with Python hashlib in setup); rustc; alphabets as recorded in evidence.bounds"),
